@@ -82,9 +82,26 @@ func compat(e fit.VerifField, fd fitmodel.FieldDef) bool {
 		}
 		return false
 	case kindLat, kindLng:
-		return fd.Base == fitmodel.Sint32 && fd.Size == 4
+		// the profile type, or a narrower signed type ("signed values, fields narrower than the profile type ...
+		// and coordinates included")
+		switch fd.Base {
+		case fitmodel.Sint32, fitmodel.Sint16, fitmodel.Sint8:
+			return int(fd.Size) == bs
+		}
+		return false
 	}
 	return false
+}
+
+// coordValue: the semicircles a coordinate field's wire bytes denote (sign-extended from a narrower signed type);
+// ok is false for the invalid pattern of a narrower type, for which the model makes no demand.
+func coordValue(fd fitmodel.FieldDef, big bool, payload []byte) (int32, bool) {
+	bs := fitmodel.BaseSize(fd.Base)
+	raw := fitmodel.GetUint(big, payload[:bs])
+	if bs < 4 && raw == fitmodel.BaseInvalidBits(fd.Base) {
+		return 0, false
+	}
+	return int32(fitmodel.SignExtend(raw, bs)), true
 }
 
 // latValid is the reference validity rule for latitude semicircles.
@@ -118,7 +135,10 @@ func modelSet(msg reflect.Value, e fit.VerifField, fd fitmodel.FieldDef, big boo
 		fv.Set(reflect.ValueOf(t))
 		return true
 	case kindLat:
-		s := int32(fitmodel.GetUint(big, payload[:4]))
+		s, ok := coordValue(fd, big, payload)
+		if !ok {
+			return false
+		}
 		if s == 1<<30 {
 			return false // +90 degrees: C17's known finding, no demand here
 		}
@@ -132,7 +152,10 @@ func modelSet(msg reflect.Value, e fit.VerifField, fd fitmodel.FieldDef, big boo
 		}
 		return true
 	case kindLng:
-		s := int32(fitmodel.GetUint(big, payload[:4]))
+		s, ok := coordValue(fd, big, payload)
+		if !ok {
+			return false
+		}
 		fv.Set(reflect.ValueOf(fit.NewLongitude(s)))
 		return true
 	}
